@@ -446,6 +446,18 @@ func (c *TermCtx) Eq(a, b *Term) *Term {
 	if a.Op == "const" && b.Op == "ite" && b.Args[1].Op == "const" && b.Args[2].Op == "const" {
 		return c.Ite(b.Args[0], c.Eq(a, b.Args[1]), c.Eq(a, b.Args[2]))
 	}
+	// a constant outside the other side's interval
+	if a.Sort.Kind == SInt {
+		if b.Op == "const" {
+			if iv := c.Bounds(a); (iv.lo != nil && b.IVal.Cmp(iv.lo) < 0) || (iv.hi != nil && b.IVal.Cmp(iv.hi) > 0) {
+				return c.False()
+			}
+		} else if a.Op == "const" {
+			if iv := c.Bounds(b); (iv.lo != nil && a.IVal.Cmp(iv.lo) < 0) || (iv.hi != nil && a.IVal.Cmp(iv.hi) > 0) {
+				return c.False()
+			}
+		}
+	}
 	if a.id > b.id {
 		a, b = b, a
 	}
@@ -682,10 +694,12 @@ func splitAddConst(t *Term) (*Term, *big.Int) {
 	return t, big.NewInt(0)
 }
 
-func (c *TermCtx) Lt(a, b *Term) *Term { return c.cmpInt("<", a, b) }
+// All integer comparisons are canonicalised to the single atom form (<= a b), so that a case hypothesis
+// and the same comparison written the other way round share their atom.
+func (c *TermCtx) Lt(a, b *Term) *Term { return c.Not(c.cmpInt("<=", b, a)) }
 func (c *TermCtx) Le(a, b *Term) *Term { return c.cmpInt("<=", a, b) }
-func (c *TermCtx) Gt(a, b *Term) *Term { return c.cmpInt(">", a, b) }
-func (c *TermCtx) Ge(a, b *Term) *Term { return c.cmpInt(">=", a, b) }
+func (c *TermCtx) Gt(a, b *Term) *Term { return c.Not(c.cmpInt("<=", a, b)) }
+func (c *TermCtx) Ge(a, b *Term) *Term { return c.cmpInt("<=", b, a) }
 
 // ---- bit vectors --------------------------------------------------------------------
 
@@ -1210,12 +1224,16 @@ func (s *Script) String(getModel bool, modelTerms []*Term) string {
 	for _, a := range s.asserts {
 		fmt.Fprintf(&sb, "(assert %s)\n", pr(a))
 	}
+	for i, m := range modelTerms {
+		fmt.Fprintf(&sb, "(define-fun mv!%d () %s %s)\n", i, m.Sort, pr(m))
+	}
 	sb.WriteString("(check-sat)\n")
 	if getModel {
 		if len(modelTerms) > 0 {
+			// named model terms are defined before check-sat (see below); here only the query
 			var ms []string
-			for _, m := range modelTerms {
-				ms = append(ms, pr(m))
+			for i := range modelTerms {
+				ms = append(ms, fmt.Sprintf("mv!%d", i))
 			}
 			fmt.Fprintf(&sb, "(get-value (%s))\n", strings.Join(ms, " "))
 		} else {
